@@ -18,7 +18,8 @@ PROPS = {
         # the same place: registration order across the two kinds of request)
         "params": {"syscall_p": 0.05, "other_sect_p": 0.06, "isa_weights": [75, 15, 10], "scope_session_p": 0.12, "constraints_p": 0.1, "extern_p": 0.08, "align_fill_p": 0.5},
         "rule": "seeded scenarios (random module + 1-3 sessions of insert/replace/delete requests) executed against the real "
-        "library and the listing model; distinct = distinct (module, sessions) digest; non-trivial = at least one "
+        "library and the listing model; modules also carry syscall-terminated blocks, several aligned blocks per byte interval, "
+        "get_or_insert_extern_symbol requests; distinct = distinct (module, sessions) digest; non-trivial = at least one "
         "modification was registered",
         "real_vs_stub": RW_REAL,
         "assumptions": [
@@ -143,14 +144,14 @@ PROPS["C08"] = {
     "params": {"cfi_p": 1.0, "patch_cfi_p": 0.4, "isa": "x64", "fmt": "elf", "delblock_p": 0.3},
     "rule": "seeded x86-64 ELF scenarios with 0-3 CFI procedures (directives at block starts, instruction boundaries and block "
     "ends, personality/LSDA symbols, remember/restore) and edits at or around directive positions and procedure boundaries, "
-    "patches with no or balanced CFI; the input and output cfiDirectives tables are evaluated by the independent reference "
+    "patches with no or balanced CFI (adjust/adjust, remember/label/adjust/restore, and call emulation: jmp; label; closing directive); the input and output cfiDirectives tables are evaluated by the independent reference "
     "interpreter sim/cfi_ref.py and compared per instruction; distinct = (module, sessions) digest; non-trivial = at least "
     "one modification registered and at least one CFI procedure",
     "real_vs_stub": RW_REAL + "; CFI oracle: sim/cfi_ref.py (independent interpreter)",
     "assumptions": [
         "a procedure left without any instruction may be kept empty or dropped (DESIGN 3.4 C08)",
         "where directives sit exactly at the insertion point, the patch may see the state before or after them",
-        "patch CFI is limited to balanced .cfi_adjust_cfa_offset pairs",
+        "patch CFI is limited to balanced shapes: a pair of .cfi_adjust_cfa_offset, or .cfi_remember_state / .cfi_adjust_cfa_offset / .cfi_restore_state",
     ],
 }
 
